@@ -31,7 +31,7 @@ ASSUMPTIONS = [
     "ideal networks are the premise of the property ('if the network outputs the ideal maps for the image it is actually given'), not an approximation of a trained one",
     "keypoints in general position (fixed non-dyadic fractional parts); scene geometry scaled to the coarsest cell of the chain (resolution rule, DESIGN C02); configurations whose geometry cannot satisfy the rule are counted as skipped_infeasible, not as violations",
     "configurations in which a resampling stage would produce a non-integer target size are the domain of known finding K4 (truncating resize, C04) and are counted as skipped_k4_domain; scenes grow by an integer factor so that eff_scale is preserved",
-    "tolerance = half an output-stride cell mapped back to the original frame plus the resampling phase the ideal network cannot see through: half a model-input pixel, or 0.5*|s_total-1| input px when the total up-scaling exceeds 2 (the half-pixel convention of known finding K4)",
+    "tolerance = half an output-stride cell mapped back to the original frame plus the resampling phase the ideal network cannot see through: half a model-input pixel, or 0.5*|s_total-1| input px when the total up-scaling exceeds 2 (the half-pixel convention of known finding K4), plus 0.06 input px for the ideal network's own sub-pixel localisation accuracy",
     "grid values: see bounds; other values are outside the bound",
 ]
 
@@ -59,6 +59,9 @@ def k4_free(H, W, mh, mw, scales):
         return False
     h2, w2 = (H, W) if mh is None else (mh, mw)
     return all(_isint(h2 * s) and _isint(w2 * s) for s in scales)
+
+
+LOCATOR_SLACK = 0.06  # input px: accuracy of the ideal network's intensity-weighted disc centroid after bilinear resampling
 
 
 def phase_allowance(s_total):
@@ -116,7 +119,7 @@ def run_single(case, tmp):
     path = slp if case["provider"] == "LabelsReader" else S.png_video_paths(tmp, "s")
     pred = I.single_predictor(3, scale, case["max_stride"], stride, 1.5, (mh, mw), case["refinement"], case["batch"], sk)
     outs = I.run_predictor(pred, case["provider"], path, make_labels=False)
-    tol = (0.5 * stride + phase_allowance(scale * eff)) / (scale * eff) + 1e-3
+    tol = (0.5 * stride + phase_allowance(scale * eff) + LOCATOR_SLACK) / (scale * eff) + 1e-3
     got = {}
     for o in outs:
         for fi, pk, pv in zip(o["frame_idx"], o["pred_instance_peaks"], o["pred_peak_values"]):
@@ -217,7 +220,7 @@ def run_topdown(case, tmp):
         return p
 
     outs = I.run_predictor(mk(), case["provider"], path, make_labels=False)
-    tol = (0.5 * case["i_stride"] + phase_allowance(case["i_scale"] * eff)) / (case["i_scale"] * eff) + 1e-3
+    tol = (0.5 * case["i_stride"] + phase_allowance(case["i_scale"] * eff) + LOCATOR_SLACK) / (case["i_scale"] * eff) + 1e-3
     got = {0: [], 1: []}
     for o in outs:
         for fi, pk, pv, bb in zip(o["frame_idx"], o["pred_instance_peaks"], o["pred_peak_values"], o["instance_bbox"]):
